@@ -11,7 +11,7 @@ From Coq Require Import List Arith ZArith Bool.
 From GS Require Import C20_Heap C20_Effects.
 Import ListNotations.
 
-(* every entry point, every configuration (57468 in total), every value type, contents, size, every
+(* every entry point, every configuration (59868 in total), every value type, contents, size, every
    binding and aliasing of arguments and attributes: all buffers that exist before the call (caller
    arrays, earlier stored/returned results) have the same contents after the call *)
 Theorem C20_no_caller_write :
@@ -21,6 +21,17 @@ Theorem C20_no_caller_write :
     nth_error (heap (run interp (program e c) st)) cell = nth_error (heap st) cell.
 Proof. exact no_caller_write. Qed.
 Print Assumptions C20_no_caller_write.
+
+(* stored state never aliases caller arrays: after any public call every attribute of the object refers to
+   a buffer allocated by that call or to a buffer some attribute referred to before the call - never to a
+   buffer that only the caller holds (so a later in-place edit by the caller cannot change stored state) *)
+Theorem C20_no_caller_alias :
+  forall e c, valid_cfg (dims e) c ->
+  forall (V : Type) (interp : nat -> list V -> V) (st : state (V := V)) a cell,
+    att (run interp (program e c) st) a = Some cell ->
+    length (heap st) <= cell \/ exists a', att st a' = Some cell.
+Proof. exact no_caller_alias. Qed.
+Print Assumptions C20_no_caller_alias.
 
 (* histories of any length: whatever exists after a prefix cs1 of calls is not altered by any continuation
    cs2 made of public entry points, whatever buffers the caller passes in (also earlier results) *)
@@ -51,7 +62,7 @@ Print Assumptions C20_predicted_writes_empty.
 
 (* the configuration space: its size, and the enumeration used by the finite check is complete *)
 Theorem C20_config_space :
-  total_cfgs = 57468%Z
+  total_cfgs = 59868%Z
   /\ (forall e, Z.of_nat (length (all_cfgs (dims e))) = cfg_count e)
   /\ (forall e c, valid_cfg (dims e) c -> In c (all_cfgs (dims e)))
   /\ (forall e, In e entries).
